@@ -214,9 +214,10 @@ class EAS(TransductiveModel):
 
             # Unbatchify to get correct dimensions
             ll = get_log_likelihood(logprobs, actions, td_out.get("mask", None))
-            ll = unbatchify(ll, (n_runs * batch_size, n_aug, group_s)).squeeze()
-            reward = unbatchify(reward, (n_runs * batch_size, n_aug, group_s)).squeeze()
-            actions = unbatchify(actions, (n_runs * batch_size, n_aug, group_s)).squeeze()
+            # rows are laid out as (start, run, augmentation, instance): [batch, runs * augmentations, starts]
+            ll = unbatchify(ll, (n_runs * n_aug, group_s))
+            reward = unbatchify(reward, (n_runs * n_aug, group_s))
+            actions = unbatchify(actions, (n_runs * n_aug, group_s))
 
             # Compute REINFORCE loss with shared baselines
             # compared to original EAS, we also support symmetric and full baselines
@@ -250,11 +251,11 @@ class EAS(TransductiveModel):
             max_reward = reward.max(dim=2)[0].max(dim=1)[0]
 
             # Reshape and rank rewards
-            reward_group = reward.reshape(n_runs * batch_size, -1)
+            reward_group = reward.reshape(batch_size, -1)
             _, top_indices = torch.topk(reward_group, k=1, dim=1)
 
             # Obtain best solutions found so far
-            solutions = actions.reshape(n_runs * batch_size, n_aug * group_s, -1)
+            solutions = actions.reshape(batch_size, n_runs * n_aug * group_s, -1)
             best_solutions_iter = gather_by_index(solutions, top_indices, dim=1)
             best_solutions[:, : best_solutions_iter.shape[1]] = best_solutions_iter
 
